@@ -84,3 +84,24 @@ def sensGet (m : List ((Nat × Nat) × Rat)) (a : Int × Int) : Rat := (m.lookup
 /-- `math.isclose(x, v)` for a YAML value already known to be a number -/
 def iscloseY (x : Y) (v : Rat) : Bool := match x.toRat? with | some q => isclose q v | none => false
 end NASim.PyRt
+
+namespace NASim.PyRt
+open NASim.Load
+/-- is `t` a contiguous part of `s` (Python's `t in s` on strings) -/
+def isInfixChars (t : List Char) : List Char → Bool
+  | [] => t.isEmpty
+  | c :: cs => t.isPrefixOf (c :: cs) || isInfixChars t cs
+/-- `d[k] = v` on a name → flag dictionary: an existing key keeps its position -/
+def flagSet (d : List (Y × Bool)) (k : Y) (v : Bool) : List (Y × Bool) :=
+  if d.any (fun p => p.1.pyEq k) then d.map (fun p => if p.1.pyEq k then (p.1, v) else p) else d ++ [(k, v)]
+/-- `x in c` for a YAML value `c`: an element of a list, a key of a dictionary, a substring of a string (anything else
+is a `TypeError`; the validated configurations this is applied to hold lists) -/
+def yContains (c x : Y) : Bool :=
+  match c with
+  | .list l => pyIn x l
+  | .map m => pyIn x (m.map (·.1))
+  | .str s => (match x with | .str t => isInfixChars t.toList s.toList | _ => false)
+  | _ => false
+/-- `float(y)` of a numeric YAML value -/
+def yfloat (y : Y) : Rat := y.toRat?.getD 0
+end NASim.PyRt
